@@ -91,6 +91,7 @@ type vestOpts struct {
 	Minter      *minttypes.GenesisState
 	Distributor *disttypes.GenesisState
 	Record      bool
+	Extra       []chain.GenAccount // further genesis accounts
 }
 
 func newVestEnv(r *rand.Rand) (*vestEnv, error) { return newVestEnvOpts(r, vestOpts{}) }
@@ -145,6 +146,8 @@ func newVestEnvOpts(r *rand.Rand, opt vestOpts) (*vestEnv, error) {
 		ov := sdk.NewCoins(sdk.NewCoin(vDenom, sdk.NewIntFromBigInt(new(big.Int).Add(gen.BigAmount(r, 22), big.NewInt(1000)))))
 		if i == 1 {
 			ov = ov.Add(sdk.NewCoin("foo", sdk.NewInt(int64(1000+r.Intn(1_000_000)))))
+			// a denomination with upper-case characters (IBC vouchers look like this)
+			ov = ov.Add(sdk.NewCoin(distDenoms[2], sdk.NewInt(int64(1000+r.Intn(5_000_000)))))
 		}
 		start := gen.Epoch.Add(time.Duration(r.Intn(3)-1) * time.Hour)
 		end := start.Add(time.Duration(1+r.Intn(72)) * time.Hour)
@@ -171,6 +174,7 @@ func newVestEnvOpts(r *rand.Rand, opt vestOpts) (*vestEnv, error) {
 	}
 	vg.AccountVestingPools = append(vg.AccountVestingPools, &vesttypes.AccountVestingPools{Owner: e.owners[0].Bech(), VestingPools: []*vesttypes.VestingPool{mkPool("gp0", true), mkPool("gp1", true)}})
 	vg.AccountVestingPools = append(vg.AccountVestingPools, &vesttypes.AccountVestingPools{Owner: e.owners[1].Bech(), VestingPools: []*vesttypes.VestingPool{mkPool("np0", false)}})
+	accs = append(accs, opt.Extra...)
 	n, err := chain.NewNode(chain.GenesisSpec{Time: gen.Epoch, Accounts: accs, Vesting: vg, Minter: opt.Minter, Distributor: opt.Distributor})
 	if err != nil {
 		return nil, err
@@ -423,6 +427,12 @@ func (e *vestEnv) genOp0(r *rand.Rand, now time.Time) vOp {
 			}
 			if r.Intn(3) == 0 {
 				ds = []string{vDenom, "foo"}
+			}
+			switch r.Intn(6) {
+			case 0:
+				ds = []string{distDenoms[2]}
+			case 1:
+				ds = append(ds, distDenoms[2])
 			}
 			if r.Intn(10) == 0 {
 				ds = append(ds, "nonexistent")
